@@ -12,7 +12,10 @@ use serde::de::DeserializeOwned;
 use serde::Serialize;
 use serde_json::{json, Value};
 
-pub const VERIF_DIR: &str = "/verif";
+/// root of the verification tree (evidence/, replays/, corpus/, KNOWN_FINDINGS.txt): $VERIF_DIR or /verif
+pub fn verif_dir() -> String {
+    std::env::var("VERIF_DIR").unwrap_or_else(|_| "/verif".to_string())
+}
 
 #[derive(Clone, Copy, PartialEq, Eq, Debug)]
 pub enum Tier {
@@ -169,7 +172,7 @@ static STRICT: AtomicBool = AtomicBool::new(false);
 
 pub fn load_known_findings() {
     let mut set = BTreeSet::new();
-    if let Ok(s) = std::fs::read_to_string(format!("{VERIF_DIR}/KNOWN_FINDINGS.txt")) {
+    if let Ok(s) = std::fs::read_to_string(format!("{}/KNOWN_FINDINGS.txt", verif_dir())) {
         for line in s.lines() {
             let line = line.trim();
             if let Some(rest) = line.strip_prefix("open:") {
@@ -320,7 +323,7 @@ pub fn write_replay(prop: &str, engine: &str, seed: u64, case: &Value, message: 
     let text = serde_json::to_string_pretty(&body).unwrap();
     let mut h = std::collections::hash_map::DefaultHasher::new();
     text.hash(&mut h);
-    let dir = format!("{VERIF_DIR}/replays");
+    let dir = format!("{}/replays", verif_dir());
     let _ = std::fs::create_dir_all(&dir);
     let path = format!("{dir}/{prop}-{engine}-{seed}-{:08x}.json", h.finish() as u32);
     let _ = std::fs::write(&path, text);
@@ -336,7 +339,7 @@ pub fn replay_case<E: Engine>(e: &E, case: &Value) -> Result<Result<(), String>,
 
 /// Committed regression cases: /verif/corpus/<prop>/*.json, each `{engine, case, expect}`.
 pub fn corpus_files(prop: &str) -> Vec<std::path::PathBuf> {
-    let dir = format!("{VERIF_DIR}/corpus/{prop}");
+    let dir = format!("{}/corpus/{prop}", verif_dir());
     let mut v: Vec<_> = std::fs::read_dir(dir)
         .map(|rd| {
             rd.filter_map(|e| e.ok())
@@ -363,6 +366,8 @@ pub struct PropReport {
     pub floor_misses: Vec<(String, u64, u64)>,
     pub corpus_ok: u64,
     pub corpus_failures: Vec<(String, String)>,
+    /// infrastructure problems (unreadable corpus file etc.): exit 2, never a violation
+    pub harness_errors: Vec<String>,
 }
 
 impl PropReport {
@@ -380,6 +385,7 @@ impl PropReport {
             floor_misses: vec![],
             corpus_ok: 0,
             corpus_failures: vec![],
+            harness_errors: vec![],
         }
     }
     pub fn push(&mut self, name: &str, o: Outcome) {
@@ -497,7 +503,7 @@ impl PropReport {
             "wall_s": (wall * 1000.0).round() / 1000.0,
             "violations": violations,
         });
-        let dir = format!("{VERIF_DIR}/evidence");
+        let dir = format!("{}/evidence", verif_dir());
         let _ = std::fs::create_dir_all(&dir);
         let path = format!("{dir}/{}.json", self.property);
         if let Err(e) = std::fs::write(&path, serde_json::to_string_pretty(&ev).unwrap()) {
@@ -515,6 +521,12 @@ impl PropReport {
         );
         if violations > 0 {
             return 1;
+        }
+        if !self.harness_errors.is_empty() {
+            for e in &self.harness_errors {
+                eprintln!("INFRASTRUCTURE property={}: {e}", self.property);
+            }
+            return 2;
         }
         if !self.floor_misses.is_empty() {
             for (k, g, w) in &self.floor_misses {
